@@ -1,4 +1,4 @@
-"""kernels of the binary stream formats (C15): hash.h, tensor/stream.h, dims.h, configurable.cpp, parameter.cpp.
+"""kernels of the binary stream formats (C15): hash.h, tensor/stream.h, dims.h, configurable.cpp.
 
 The byte layout itself (field order and widths) is tied by the differential correspondence; the *decisions* and the
 arithmetic of the readers are translated here:
